@@ -1,43 +1,49 @@
 /- REGENERATED from /repo on every run by /verif/harness/cmd/extract — do not edit. -/
 namespace Ibx.Gen.Conc
 
-/-- mem store.go: are s.enforcerDeliver / s.enforcerRemove called inside a closure passed to s.withMailbox ("insideLock") or only outside ("outsideLock") -/
+/-- mem store: "insideLock" = some send on one of the two channels the size-enforcer goroutine selects on is reached (through unexported helpers) from inside a closure passed to the lock wrapper (the method that calls its func parameter on the mailbox it has just locked); "outsideLock" = none is, and AddMessage reaches the registering send, RemoveMessage the un-registering send and PurgeMessages the un-registering send in a loop, all outside such closures -/
 def memEnforcerCallSite : String := "outsideLock"
 
-/-- maxSizeEnforcer, case <-s.remove: "goneFlag" = `if m.el == nil { m.gone = true } else all.Remove(m.el)`; "unguarded" = all.Remove(m.el) with no nil test -/
+/-- size enforcer, the select case that does not PushBack: "goneFlag" = every <list>.Remove(<msg>.<el>) of the received message is only reached when <msg>.<el> is known non-nil, where it is nil a bool field of the message is set to true, and the request's channel is closed unconditionally at the end; "unguarded" = Remove(<msg>.<el>) with no nil test of that field at all -/
 def memEnforcerRemove : String := "goneFlag"
 
-/-- maxSizeEnforcer, case <-s.incoming: `if m.gone { close(md.done); continue }` precedes all.PushBack -/
+/-- size enforcer, the select case that calls PushBack: PushBack(<msg>) is only reached when the flag field set by the other case is false; when it is true the request's channel is closed and the loop continues; the element returned by PushBack is stored in the field the other case passes to Remove; the request's channel is closed after the registration -/
 def memIncomingSkipsGone : Bool := true
 
-/-- maxSizeEnforcer, `for curSize > maxSize`: `el := all.Front(); if el == nil { break }` precedes all.Remove(el) -/
+/-- size enforcer, registering case: every <list>.Remove(e) has e := <list>.Front() and sits in a loop whose condition is <running total> > <parameter of the goroutine>, reached only when e is known non-nil, the nil side leaving that loop with break -/
 def memEvictStopsOnEmpty : Bool := true
 
-/-- mem AddMessage cap loop: "collectsAndNotifies" = evicted messages are collected under the lock, then emitDeleted + enforcerRemove after it; "silent" = deleted from the map only -/
+/-- mem AddMessage, inside the closure passed to the lock wrapper: one delete(<box>.<map>, key) in a loop whose condition has the conjunct len(<box>.<map>) > <recv>.<cap> (cap = the field initialised from MailboxMsgCap) with <recv>.<cap> > 0 known, key = strconv.Itoa(<box>.<first>) and <box>.<first>++ once per iteration; "collectsAndNotifies" = the deleted value is appended (under the same conditions as the delete) to a slice declared outside the closure, and after the wrapper call a range over that slice reaches AfterMessageDeleted.Emit of the element and the un-registering send carrying the element; "silent" = nothing is collected and AddMessage reaches neither an Emit nor an un-registering send -/
 def memCapEvict : String := "collectsAndNotifies"
 
-/-- mem Message.seen is an atomic.Bool, written by Store(true) in MarkSeen and read by Load() in Seen -/
+/-- mem Message has exactly one field of type atomic.Bool (sync/atomic); Message.Seen is `return <recv>.<that field>.Load()` and Store.MarkSeen reaches exactly one <x>.<that field>.Store(true) -/
 def memSeenAtomic : Bool := true
 
-/-- mem withMailbox: s.Unlock() precedes the mailbox lock, mailbox unlock is deferred, f(mb) is the last statement -/
+/-- mem lock wrapper: exactly one unconditional <recv>.Lock() ... <recv>.Unlock() pair (no RLock, none deferred) with every access to a map of the store and every binding of the mailbox in between; then the mailbox's Lock() where the bool parameter is true / RLock() where it is false; the matching Unlock / RUnlock deferred under the same test; then the unconditional call of the func parameter on that mailbox -/
 def memStoreLockReleasedBeforeBoxLock : Bool := true
 
-/-- mem AddMessage: s.enforcerDeliver(m) comes after the `range evicted` notification loop -/
+/-- mem AddMessage: exactly one registering send is reached, outside the closure, carrying the message that the closure stored into the map, after the range over the evicted messages -/
 def memDeliverIsLast : Bool := true
 
-/-- file VisitMailboxes: level-1 and level-2 readDirNames errors satisfying os.IsNotExist are skipped with continue ("tolerated") or returned ("fatal") -/
+/-- mem: for every exported method of the store the literal bool arguments of the lock-wrapper calls it reaches (itself or through unexported helpers), in order: W = true (write lock), R = false (read lock), ? = not a literal -/
+def memLockModes : List String := ["AddMessage:W", "GetMessage:R", "GetMessages:R", "MarkSeen:W", "PurgeMessages:W", "RemoveMessage:W", "VisitMailboxes:"]
+
+/-- file VisitMailboxes: three directory listings (calls of a helper that calls Readdirnames) at range-nesting depth 0, 1, 2; depth 0 returns the error; at depth 1 and 2 a failed listing (err != nil) `continue`s where os.IsNotExist(err) / errors.Is(err, ErrNotExist) is known true and returns err where it is known false ("tolerated"), or returns err without such a test ("fatal") -/
 def fileVisitENOENT : String := "tolerated"
 
-/-- every exported method of file.Store except VisitMailboxes starts with mb := fs.mbox(..); mb.(R)Lock(); defer mb.(R)Unlock() -/
+/-- every exported method of file.Store except VisitMailboxes: builds the mailbox by a store method, takes its Lock / RLock unconditionally before anything else mentions the mailbox or the store, registers the matching deferred Unlock / RUnlock immediately, and never locks, unlocks or rebinds it again -/
 def fileOpsHoldBucketLock : Bool := true
 
-/-- exported methods of file.Store that hold the bucket lock for their whole body (sorted) -/
+/-- exported methods of file.Store that hold the bucket lock for their whole body in that sense (sorted) -/
 def fileLockedOps : List String := ["AddMessage", "GetMessage", "GetMessages", "MarkSeen", "PurgeMessages", "RemoveMessage"]
 
-/-- file VisitMailboxes innermost loop: mb.RLock(); msgs, err := mb.getMessages(); mb.RUnlock() -/
+/-- the same methods with the lock they hold: W = Lock, R = RLock -/
+def fileLockModes : List String := ["AddMessage:W", "GetMessage:R", "GetMessages:R", "MarkSeen:W", "PurgeMessages:W", "RemoveMessage:W"]
+
+/-- file VisitMailboxes, innermost loop: the mailbox built by a store method is (R)Lock()ed and (R)Unlock()ed in the same block, not deferred; every method call on the mailbox lies between the two; the callback parameter is called outside them -/
 def fileVisitReadsLocked : Bool := true
 
-/-- HashLock.Get indexes by hash[0:3] and file.Store.mbox uses hash[0:3] as the level-1 directory: one lock bucket = one level-1 directory -/
+/-- HashLock is an array of 4096 locks and Get(h) returns &<recv>[i] with i from strconv.ParseInt(h[0:3], 16, ..); every file-store function that asks the HashLock field for Get(h) builds the mailbox path as filepath.Join(<recv>.<root>, h[0:3], .., h) from the same never-reassigned h and returns it inside the mailbox: one lock bucket = one level-1 directory -/
 def fileBucketIsLevel1Dir : Bool := true
 
 end Ibx.Gen.Conc
